@@ -114,13 +114,14 @@ func c18Run(c c18Case) error {
 	var diagSeen, rejected bool
 	type one struct {
 		capt  string
+		fault string
 		pw    *spg.Password
 		frags []string
 		draws int
 	}
 	run := func(key uint64) (one, error) {
 		var o outcome
-		var capt []byte
+		var capt, faultCapt []byte
 		isChar := c.Char != nil
 		var extra []string
 		if isChar {
@@ -224,13 +225,16 @@ func c18Run(c c18Case) error {
 					tp := &tape.Tape{TailKey: key | 1, Cap: 1 << 20, Fault: &tape.Fault{AtRead: 1 + int(c.Key1>>8)%(2*c.WL.Length), Persist: c.Key1&16 != 0}}
 					callRaw(tp, r.Generate) // panic or error is the expected outcome (C09)
 				})
-				capt = append(capt, c3...)
+				// judged by the direct oracle only: how many diagnostics precede the
+				// fault legitimately depends on the stream (a redrawn word shifts the
+				// fault to an earlier choice)
+				faultCapt = c3
 			}
 		}
 		if o.Panic != nil {
 			return one{}, &ev.Skip{Why: "panic (judged by C13)"}
 		}
-		res := one{capt: string(capt), pw: o.Pw, draws: len(o.S.Draws)}
+		res := one{capt: string(capt), fault: string(faultCapt), pw: o.Pw, draws: len(o.S.Draws)}
 		if o.Pw != nil {
 			res.frags = secretFragments(o.Pw, isChar)
 		}
@@ -269,9 +273,9 @@ func c18Run(c c18Case) error {
 	}
 	runs := []one{a, b}
 	for i, r := range runs {
-		plain := reStamp.ReplaceAllString(r.capt, "")
+		plain := reStamp.ReplaceAllString(r.capt+r.fault, "")
 		other := runs[1-i]
-		otherPlain := reStamp.ReplaceAllString(other.capt, "")
+		otherPlain := reStamp.ReplaceAllString(other.capt+other.fault, "")
 		otherFrags := map[string]bool{}
 		for _, f := range other.frags {
 			otherFrags[f] = true
